@@ -152,8 +152,20 @@ import importlib, json, sys
 sys.path.insert(0, {root!r})
 sys.path.insert(0, {childdir!r})
 def test_obs():
-    import c11_child
-    for m in {mods!r}:
+    import c11_child, pytest
+    mods = {mods!r}
+    for m in mods[: len(mods) // 2]:
+        importlib.import_module(m)
+    # a nested in-process session in the middle of this one (a test that drives pytest itself: plugin tests, example
+    # projects), with its own --jaxtyping-packages: when it ends, the outer session's instrumentation goes on
+    third = max(1, len(mods) // 4)
+    rc = pytest.main(["-q", "-p", "no:cacheprovider", {inner!r}])  # (without the option of its own)
+    assert rc == 0, rc
+    for m in mods[len(mods) // 2 : len(mods) // 2 + third]:
+        importlib.import_module(m)
+    rc = pytest.main(["-q", "-p", "no:cacheprovider", "--jaxtyping-packages=jtv_inner_only_pkg,spychk.B", {inner!r}])
+    assert rc == 0, rc
+    for m in mods[len(mods) // 2 + third :]:
         importlib.import_module(m)
     json.dump({{"modules": c11_child.observe(c11_child.forest_names({root!r}))}}, open({out!r}, "w"))
 '''
@@ -163,8 +175,12 @@ def mode_pytest(spec):
     root = spec["root"]
     mods = [o["module"] for o in spec["ops"] if o["op"] == "import"]
     out = os.path.join(root, "obs.json")
+    inner = os.path.join(root, "jtv_inner_session")
+    os.makedirs(inner, exist_ok=True)
+    with open(os.path.join(inner, "test_inner.py"), "w") as f:
+        f.write("def test_inner():\n    assert True\n")
     with open(os.path.join(root, "test_gen.py"), "w") as f:
-        f.write(TEST_FILE.format(root=root, childdir=os.path.dirname(os.path.abspath(__file__)), mods=mods, out=out))
+        f.write(TEST_FILE.format(root=root, childdir=os.path.dirname(os.path.abspath(__file__)), mods=mods, out=out, inner=inner))
     ex = spec["extra"]
     env = dict(os.environ)
     env["PYTHONPATH"] = root + os.pathsep + env.get("PYTHONPATH", "")
